@@ -229,7 +229,8 @@ Inductive kase :=
 
 (* events: kind 0 inv, 1 fs (body / task starts), 2 fe (ends), 3 ret (v1 = result),
    4 blk (seen blocked at a quiescent point), 5 create (v1 = id), 6 destroy (v1 = id),
-   7 clock advanced by v1 *)
+   7 clock advanced by v1, 9 the handler of a request took its connection over (Hijack), 10 the
+   connection hijacked by thread v1 was closed (once more) *)
 Record ev := mkEv { et : Z; ea : nat; ek : Z; eop : nat; ev1 : Z }.
 
 (* one instance of a primitive with the threads that use it.  A run with several instances
@@ -303,8 +304,25 @@ Definition model_obs (c : case) := map model_obs1 c.
 Definition nth_op {A} (sc : list (list A)) (a i : nat) : option A :=
   match nth_error sc a with Some l => nth_error l i | None => None end.
 
-(* Lim: holders = successful acquisitions - successful releases as observed *)
-Fixpoint lim_scan (n : Z) (sc : list (list lop)) (l : list ev) (holders inside : Z) : bool :=
+(* Lim: holders = successful acquisitions - successful releases as observed.
+   MaxConns: a holder is a request inside the route handler (the executor's own fs event up to the
+   return of the request).  The cap is judged strictly on those.  A handler may take its connection
+   over (http.Hijacker, event 9) and leave it open after it has returned; the connection is closed by
+   event 10 (v1 = the thread that hijacked it), any number of times.  Whether such a lingering
+   connection still occupies a slot is not fixed by the property text (the code under check gives the
+   slot back at the handler's return; the model in Model.v says so and [agrees] compares that): the
+   REFUSAL judgement is therefore generous - a 503 is justified when the holders plus the lingering
+   hijacked connections reach the cap - while no handler is ever let in beyond the cap. *)
+Definition nmem (x : nat) (l : list nat) : bool := existsb (Nat.eqb x) l.
+Fixpoint nremove1 (x : nat) (l : list nat) : list nat :=
+  match l with
+  | [] => []
+  | y :: l' => if Nat.eqb x y then l' else y :: nremove1 x l'
+  end.
+Definition lingering (inb opn : list nat) : Z :=
+  Z.of_nat (length (filter (fun t => negb (nmem t inb)) opn)).
+
+Fixpoint lim_scan (n : Z) (sc : list (list lop)) (l : list ev) (holders inside : Z) (inb opn : list nat) : bool :=
   match l with
   | [] => true
   | e :: l' =>
@@ -313,26 +331,28 @@ Fixpoint lim_scan (n : Z) (sc : list (list lop)) (l : list ev) (holders inside :
     match nth_op sc (ea e) (eop e) with
     | None => false
     | Some o =>
-      let '(ok, h', i') :=
+      let '(ok, h', i', inb', opn') :=
         if (k =? 3)%Z then
           match o with
-          | LBorrow => ((r =? 1) && (holders <? n), holders + 1, inside)%Z
-          | LTry => if (r =? 1)%Z then ((holders <? n)%Z, (holders + 1)%Z, inside)
-                    else ((holders =? n)%Z, holders, inside)
+          | LBorrow => ((r =? 1) && (holders <? n), holders + 1, inside, inb, opn)%Z
+          | LTry => if (r =? 1)%Z then ((holders <? n)%Z, (holders + 1)%Z, inside, inb, opn)
+                    else ((holders =? n)%Z, holders, inside, inb, opn)
           | LReturn | LTReturn =>
-            if (r =? 1)%Z then ((0 <? holders)%Z, (holders - 1)%Z, inside)
-            else ((holders =? 0)%Z, holders, inside)
-          | LTBorrow _ => if (r =? 1)%Z then ((holders <? n)%Z, (holders + 1)%Z, inside)
-                          else ((r =? 2)%Z, holders, inside)
-          | LReq _ => if (r =? 0)%Z then ((holders =? n)%Z, holders, inside)
-                      else (true, (holders - 1)%Z, inside)
-          | LCancel _ => (true, holders, inside)   (* holders are counted from the handler bodies *)
+            if (r =? 1)%Z then ((0 <? holders)%Z, (holders - 1)%Z, inside, inb, opn)
+            else ((holders =? 0)%Z, holders, inside, inb, opn)
+          | LTBorrow _ => if (r =? 1)%Z then ((holders <? n)%Z, (holders + 1)%Z, inside, inb, opn)
+                          else ((r =? 2)%Z, holders, inside, inb, opn)
+          | LReq _ => if (r =? 0)%Z then ((n <=? holders + lingering inb opn)%Z, holders, inside, inb, opn)
+                      else (true, (holders - 1)%Z, inside, nremove1 (ea e) inb, opn)
+          | LCancel _ => (true, holders, inside, inb, opn)   (* holders are counted from the handler bodies *)
           end
-        else if (k =? 1)%Z then ((holders <? n)%Z && (inside <? n)%Z, (holders + 1)%Z, (inside + 1)%Z)
-        else if (k =? 2)%Z then (true, holders, (inside - 1)%Z)
-        else if (k =? 4)%Z then ((holders =? n)%Z, holders, inside)
-        else (true, holders, inside) in
-      ok && (h' <=? n)%Z && (0 <=? h')%Z && lim_scan n sc l' h' i'
+        else if (k =? 1)%Z then ((holders <? n)%Z && (inside <? n)%Z, (holders + 1)%Z, (inside + 1)%Z, ea e :: inb, opn)
+        else if (k =? 2)%Z then (true, holders, (inside - 1)%Z, inb, opn)
+        else if (k =? 4)%Z then ((holders =? n)%Z, holders, inside, inb, opn)
+        else if (k =? 9)%Z then (true, holders, inside, inb, ea e :: opn)
+        else if (k =? 10)%Z then (true, holders, inside, inb, nremove1 (Z.to_nat r) opn)
+        else (true, holders, inside, inb, opn) in
+      ok && (h' <=? n)%Z && (0 <=? h')%Z && lim_scan n sc l' h' i' inb' opn'
     end
   end.
 
@@ -482,7 +502,7 @@ Definition wg_complete (n : nat) (l : list ev) : bool :=
 
 Definition prop_ok1 (c : case1) : bool :=
   match ckind c with
-  | KLim n sc => lim_scan (Z.of_nat n) sc (clog c) 0 0
+  | KLim n sc => lim_scan (Z.of_nat n) sc (clog c) 0 0 [] []
   | KTR n sc => tr_scan (Z.of_nat n) sc (clog c) 0 0 0
   | KPL n ma sc => pl_scan (Z.of_nat n) ma sc (clog c) (mkPM [] [] [] [] [] 0 1000000 [])
   | KWP v wa _ jn items => wp_scan (Z.of_nat jn) (clog c) 0 [] && wp_complete v items (clog c)
